@@ -1,0 +1,17 @@
+//go:build verif
+
+// Contracts for package utils (gotree/io/utils), checked by /verif (govc). Comments only.
+
+package utils
+
+// ---------------------------------------------------------------------------
+// Multi-tree reader goroutine (properties C13, C02, C11): every record is a
+// tree or an error, identifiers are consecutive from 0 in sending order, the
+// channel is closed exactly once after the last send
+// ---------------------------------------------------------------------------
+
+//@ func io/utils.ReadMultiTrees$1
+//@   flag noframe
+//@   requires compTrees != nil && !closed(compTrees) && reader != nil
+//@   send compTrees [message_is_a_tree_or_an_error] msg.Err == nil ==> msg.Tree != nil
+//@   ensures [channel_closed_at_the_end] closed(compTrees)
